@@ -82,7 +82,12 @@ func (s *vC04Sys) Enabled() []vOp {
 	}
 	sort.Ints(ids)
 	for _, id := range ids {
-		ops = append(ops, vOp{K: "Remove", A: id})
+		// B = what the node handed to Remove carries besides the id (only the id
+		// identifies the document): nothing, the indexed metadata, another document's
+		// metadata, a map naming an unknown field
+		for b := 0; b < 4; b++ {
+			ops = append(ops, vOp{K: "Remove", A: id, B: b})
+		}
 	}
 	return ops
 }
@@ -103,7 +108,18 @@ func (s *vC04Sys) Apply(op vOp, hist []vOp, check bool) {
 			s.seen[k] = true
 		}
 	case "Remove":
-		if err := s.idx.Remove(*NewMetadataNodeWithID(uint32(op.A), nil)); err != nil {
+		var carried map[string]interface{}
+		if di, ok := s.live[uint32(op.A)]; ok {
+			switch op.B {
+			case 1:
+				carried = vCloneMeta(s.docs[di])
+			case 2:
+				carried = vCloneMeta(s.docs[(di+1)%len(s.docs)])
+			case 3:
+				carried = map[string]interface{}{"zz_unknown": "x"}
+			}
+		}
+		if err := s.idx.Remove(*NewMetadataNodeWithID(uint32(op.A), carried)); err != nil {
 			if check {
 				s.c.Violation("remove-failed", "", s.cfgS, h(), err.Error())
 			}
@@ -601,7 +617,7 @@ func vC04Sweep(c *vCtx, maxN int) {
 			ap(vOp{K: "Add", A: i + 1, B: i}, i == n-1)
 		}
 		for i := 2; i < n; i += 3 {
-			ap(vOp{K: "Remove", A: i + 1}, i+3 >= n)
+			ap(vOp{K: "Remove", A: i + 1, B: (i / 3) % 4}, i+3 >= n)
 		}
 		ap(vOp{K: "Add", A: n + 1, B: n}, true)
 		c.Traces++
